@@ -251,6 +251,9 @@ def stale_stats_cases(root, tier):
             continue
         con = sqlite3.connect(os.path.join(d, "Database2", "m.db") if v2 else os.path.join(d, "m.db"))
         try:
+            if i % 2 == 0:
+                # every other library is left in write-ahead-log mode, as Engine DJ leaves its databases
+                con.execute("PRAGMA journal_mode = WAL").fetchall()
             con.execute("ANALYZE")
             con.commit()
             if v2:
@@ -275,7 +278,8 @@ def stale_stats_cases(root, tier):
         ops = [{"op": "file_digest", "dir": d}, {"op": "set_budget", "vdbe": 4 * 10 ** 9},
                {"op": "load_probe", "dir": d, "lookups": True, "lookups_limit": 60}, {"op": "file_digest", "dir": d},
                {"op": "load_probe", "dir": d, "lookups": True, "lookups_limit": 60}, {"op": "file_digest", "dir": d}]
-        cases.append({"id": "stale%d" % i, "schema": schema, "_stale": True, "_disk": True, "dir": d, "_marks": [], "ops": ops, "no_tz": True})
+        cases.append({"id": "stale%d" % i, "schema": schema, "_stale": True, "_disk": True, "dir": d, "_marks": [], "ops": ops, "no_tz": True,
+                      "_wal": i % 2 == 0})
     return cases
 
 
@@ -285,6 +289,8 @@ def judge_stale(ctx, res):
     ev = res.events
     ctx.count()
     ctx.bump("stale_statistics_cases")
+    if res.case.get("_wal"):
+        ctx.bump("foreign_libraries_in_wal_mode")
     wit = {"schema": schema, "ops": res.case["ops"], "note": "a small library made through the API, then ANALYZEd and grown by a foreign "
            "writer (plain SQL), then only observed"}
     if res.crash or len(ev) < 6:
